@@ -272,22 +272,38 @@ def check(ck):
         lp = cb.enclosing(r, ast.For)
         g = cb.enclosing(r, ast.If)
         outer = cb.enclosing(lp, ast.If) if lp is not None else None
-        if lp is not None and A.norm(lp.iter) == "result" and g is not None and A.norm(g.test) == "isinstance(%s, Exception)" % r.exc.id \
+        if lp is not None and cb.xnorm(lp.iter, cb.nodes(lp)[0]).startswith("memento_run_batch(") and g is not None and A.norm(g.test) == "isinstance(%s, Exception)" % r.exc.id \
+                and A.norm(lp.target) == r.exc.id \
                 and outer is not None and A.norm(outer.test) == "raise_first_exception":
             ok7 = True
     ck.ob(R3, cb.key(None, "first-exception"), ok7, "with raise_first_exception the first exception in input order is raised" if ok7 else
           "call_batch does not raise the first exception (in input order) iff raise_first_exception", cb.where())
     rv = cb.returns()
-    ok8 = bool(rv) and all(A.norm(r.value) == "result" for r in rv)
+    ok8 = bool(rv) and all(r.value is not None and cb.xnorm(r.value).startswith("memento_run_batch(") for r in rv)
     ck.ob(R3, cb.key(None, "returns-batch-result"), ok8, "the batch result list is returned as is" if ok8 else
           "call_batch does not return the runner's result list unchanged", cb.where())
     mr = FA(ck, "base.MementoFunctionBase.map_over_range")
     ret = mr.one(mr.returns(), "return")
-    ok9 = isinstance(ret.value, ast.DictComp) and A.norm(ret.value.key) == "value_list[idx]" and A.norm(ret.value.value) == "result_list[idx]" \
-        and A.norm(ret.value.generators[0].iter) == "range(0, len(value_list))"
-    te = [s for s in mr.stmts(ast.Assign) if any(isinstance(t, ast.Name) and t.id == "to_evaluate" for t in s.targets)]
-    ok9 = ok9 and len(te) == 1 and isinstance(te[0].value, ast.ListComp) and A.norm(te[0].value.generators[0].iter) == "value_list" and not te[0].value.generators[0].ifs
-    ck.ob(R3, mr.key(ret, "pairing"), ok9, "values and results are paired by the same index" if ok9 else
+    ok9 = False
+    if isinstance(ret.value, ast.DictComp) and len(ret.value.generators) == 1 and isinstance(ret.value.generators[0].target, ast.Name) \
+            and isinstance(ret.value.key, ast.Subscript) and isinstance(ret.value.value, ast.Subscript) \
+            and isinstance(ret.value.key.value, ast.Name) and isinstance(ret.value.value.value, ast.Name):
+        iv = ret.value.generators[0].target.id
+        VL, RL_ = ret.value.key.value.id, ret.value.value.value.id   # the evaluated values / their results
+        at = mr.nodes(ret)[0]
+        ok9 = A.norm(ret.value.key.slice) == iv and A.norm(ret.value.value.slice) == iv and not ret.value.generators[0].ifs \
+            and A.norm(ret.value.generators[0].iter) in ("range(0, len(%s))" % VL, "range(len(%s))" % VL)
+        # RL_ is call_batch(<one kwargs per element of VL, in order>), VL a list made once from the input
+        rd = mr.df.reaching(at, RL_)
+        vd = mr.df.reaching(at, VL)
+        ok9 = ok9 and len(rd) == 1 and isinstance(rd[0].value, ast.Call) and A.call_attr(rd[0].value) == "call_batch" and len(vd) == 1 \
+            and isinstance(vd[0].value, ast.Call) and A.norm(vd[0].value.func) == "list"
+        if ok9:
+            arg = rd[0].value.args[0] if rd[0].value.args else None
+            te = mr.df.reaching(rd[0].node, arg.id) if isinstance(arg, ast.Name) else []
+            lc = te[0].value if len(te) == 1 else arg
+            ok9 = isinstance(lc, ast.ListComp) and len(lc.generators) == 1 and A.norm(lc.generators[0].iter) == VL and not lc.generators[0].ifs
+    ck.ob(R3, mr.key(None, "pairing"), ok9, "values and results are paired by the same index" if ok9 else
           "map_over_range does not pair value_list[i] with result_list[i] for the list it evaluated", mr.where(ret))
 
     # ---- R4
